@@ -1,1 +1,157 @@
-// harness bodies compiled inside quinn-proto/src/connection/streams/recv.rs (feature __verif-hooks)
+// Harness bodies for quinn-proto/src/connection/streams/recv.rs (receiving half of a stream).
+
+use crate::connection::assembler::verif::mk_assembler;
+use crate::TransportErrorCode;
+
+const V62: u64 = 1 << 62;
+static ZEROS: [u8; 65536] = [0; 65536];
+
+fn mk_state(kind: u8, size: u64, code: u64) -> Option<RecvState> {
+    Some(match kind {
+        0 => RecvState::Recv { size: None },
+        1 => RecvState::Recv { size: Some(size) },
+        2 => RecvState::ResetRecvd { size, error_code: unsafe { VarInt::from_u64_unchecked(code) } },
+        _ => return None,
+    })
+}
+
+/// Representation invariant of a reachable `Recv`: the high-water mark never exceeds what was
+/// advertised nor a known final size; the read cursor never passes the high-water mark.
+/// NB: all checks happen before anything heap-owning is built (see send.rs hook).
+fn valid_recv(kind: u8, size: u64, code: u64, sent_max: u64, end: u64, bytes_read: u64) -> bool {
+    kind <= 2 && size < V62 && code < V62 && sent_max <= V62 && end <= sent_max && bytes_read <= end && (kind == 0 || end <= size)
+}
+
+fn mk_recv(kind: u8, size: u64, code: u64, sent_max: u64, end: u64, bytes_read: u64, stopped: bool) -> Recv {
+    Recv { state: mk_state(kind, size, code).unwrap(), assembler: mk_assembler(bytes_read), sent_max_stream_data: sent_max, end, stopped }
+}
+
+/// C06.a / C01.d / C11.b: `Recv::ingest` on a stopped stream (no reassembly buffer involved) for
+/// every frame (offset, length <= 65535, fin), every stream state and every connection-level
+/// accounting state: the verdict equals the closed-form table below and accepted data never
+/// moves the high-water mark beyond the advertised limit.
+pub fn ingest_stopped(kind: u8, size: u64, sent_max: u64, end: u64, offset: u64, len: u16, fin: bool, received: u64, max_data: u64) -> u32 {
+    if !valid_recv(kind, size, 7, sent_max, end, 0) || offset >= V62 || received >= V62 || max_data >= V62 {
+        return 0;
+    }
+    let mut r = mk_recv(kind, size, 7, sent_max, end, 0, true);
+    let st0 = r.state;
+    let fr = frame::Stream { id: crate::StreamId(0), offset, fin, data: bytes::Bytes::from_static(&ZEROS[..len as usize]) };
+    let res = r.ingest(fr, len as usize, received, max_data);
+    let e = offset + len as u64;
+    let new_bytes = e.saturating_sub(end);
+    let f;
+    if e >= V62 {
+        assert!(matches!(&res, Err(x) if x.code == TransportErrorCode::FLOW_CONTROL_ERROR));
+        f = 2;
+    } else if kind != 0 && (e > size || (fin && e != size)) {
+        assert!(matches!(&res, Err(x) if x.code == TransportErrorCode::FINAL_SIZE_ERROR));
+        f = 4;
+    } else if e > sent_max || received + new_bytes > max_data {
+        assert!(matches!(&res, Err(x) if x.code == TransportErrorCode::FLOW_CONTROL_ERROR));
+        f = 8;
+    } else {
+        let Ok((nb, closed)) = res else { panic!("frame within all limits must be accepted") };
+        assert!(nb == new_bytes);
+        assert!(closed == fin);
+        assert!(r.end == end.max(e));
+        assert!(r.end <= r.sent_max_stream_data);
+        assert!(received + nb <= max_data);
+        f = 1 | (if nb == 0 { 16 } else { 0 }) | (if fin { 32 } else { 0 });
+    }
+    if res.is_err() {
+        assert!(r.end == end);
+    }
+    // a stopped stream never records a final size and never buffers
+    assert!(r.state == st0);
+    assert!(r.sent_max_stream_data == sent_max && r.stopped);
+    core::mem::forget(r);
+    core::mem::forget(res);
+    f
+}
+
+/// C06.a / C11.b: `Recv::reset` (RESET_STREAM) from every state.
+pub fn reset(kind: u8, size: u64, code0: u64, sent_max: u64, end: u64, stopped: bool, final_offset: u64, code: u64, received: u64, max_data: u64) -> u32 {
+    if !valid_recv(kind, size, code0, sent_max, end, 0) || final_offset >= V62 || code >= V62 || received >= V62 || max_data >= V62 {
+        return 0;
+    }
+    let mut r = mk_recv(kind, size, code0, sent_max, end, 0, stopped);
+    let st0 = r.state;
+    let res = r.reset(unsafe { VarInt::from_u64_unchecked(code) }, unsafe { VarInt::from_u64_unchecked(final_offset) }, received, max_data);
+    let new_bytes = final_offset.saturating_sub(end);
+    let f;
+    if (kind != 0 && size != final_offset) || (kind == 0 && end > final_offset) {
+        assert!(matches!(&res, Err(x) if x.code == TransportErrorCode::FINAL_SIZE_ERROR));
+        f = 2;
+    } else if final_offset > sent_max || received + new_bytes > max_data {
+        assert!(matches!(&res, Err(x) if x.code == TransportErrorCode::FLOW_CONTROL_ERROR));
+        f = 4;
+    } else if kind == 2 {
+        assert!(matches!(res, Ok(false)));
+        // the first reset's code is the one the application will see
+        assert!(matches!(r.reset_code(), Some(c) if c.into_inner() == code0));
+        f = 8;
+    } else {
+        assert!(matches!(res, Ok(true)));
+        assert!(matches!(r.reset_code(), Some(c) if c.into_inner() == code));
+        assert!(!r.is_receiving() && !r.final_offset_unknown() && !r.can_send_flow_control());
+        assert!(matches!(r.state, RecvState::ResetRecvd { size: s, .. } if s == final_offset));
+        f = 1;
+    }
+    if !matches!(res, Ok(true)) {
+        assert!(r.state == st0);
+    }
+    assert!(r.end == end && r.stopped == stopped && r.sent_max_stream_data == sent_max);
+    core::mem::forget(r);
+    core::mem::forget(res);
+    f
+}
+
+/// C06.c / C11.b: `Recv::stop`: error if already stopped; otherwise releases exactly the unread
+/// credit `end - bytes_read`, and STOP_SENDING is wanted only while still receiving.
+pub fn stop(kind: u8, size: u64, sent_max: u64, end: u64, bytes_read: u64, stopped: bool) -> u32 {
+    if !valid_recv(kind, size, 7, sent_max, end, bytes_read) {
+        return 0;
+    }
+    let mut r = mk_recv(kind, size, 7, sent_max, end, bytes_read, stopped);
+    let res = r.stop();
+    let f;
+    match res {
+        Err(_) => {
+            assert!(stopped);
+            f = 2;
+        }
+        Ok((credits, tx)) => {
+            assert!(!stopped);
+            assert!(credits == end - bytes_read);
+            assert!(tx.0 == (kind != 2));
+            assert!(r.stopped);
+            assert!(r.stop().is_err());
+            assert!(!r.can_send_flow_control());
+            f = 1;
+        }
+    }
+    assert!(r.end == end);
+    core::mem::forget(r);
+    f
+}
+
+/// C06.c: `Recv::max_stream_data` / `record_sent_max_stream_data`: the advertised limit is
+/// exactly consumed + window, an update is requested only when the final size is unknown, the
+/// stream is not stopped and at least window/8 of new credit is outstanding; the recorded sent
+/// value never decreases.
+pub fn max_stream_data(kind: u8, size: u64, sent_max: u64, end: u64, bytes_read: u64, stopped: bool, window: u64, sent_value: u64) -> u32 {
+    // advertised values are always of the form consumed' + window with consumed' <= bytes_read
+    if !valid_recv(kind, size, 7, sent_max, end, bytes_read) || window >= V62 || sent_max > bytes_read + window {
+        return 0;
+    }
+    let mut r = mk_recv(kind, size, 7, sent_max, end, bytes_read, stopped);
+    let (max, tx) = r.max_stream_data(window);
+    assert!(max == bytes_read + window);
+    let want = kind == 0 && !stopped && (max - sent_max) >= window / 8;
+    assert!(tx.0 == want);
+    r.record_sent_max_stream_data(sent_value);
+    assert!(r.sent_max_stream_data == sent_max.max(sent_value));
+    core::mem::forget(r);
+    if want { 2 } else { 1 }
+}
